@@ -56,8 +56,9 @@ class ScriptedMixin:
     def calculate_timestep(self, states):
         ts = self._ts_answer(states)
         if REC.active:
+            REC.progress(self._uid(), 'P')
             REC.ev('POLL', uid=self._uid(), j=self._polls, ans=ts,
-                   view=snap_value(states), snap=REC.snapshot())
+                   view=snap_value(states), snap=REC.snapshot(), path=REC.locate(self))
         self._polls += 1
         return ts
 
@@ -100,7 +101,8 @@ class ScriptedMixin:
             raise ValueError(mode)
         if REC.active:
             REC.ev('COND', uid=self._uid(), j=self._conds, ts=timestep,
-                   ans=bool(ans), view=snap_value(states))
+                   ans=bool(ans), view=snap_value(states), path=REC.locate(self),
+                   snap=REC.snapshot() if REC.extra.get('cond_snap') else None)
         self._conds += 1
         if mode == 'interval':
             self._quiet_run = 0 if ans else self._quiet_run + 1
@@ -112,6 +114,8 @@ class ScriptedMixin:
     def next_update(self, timestep, states):
         uid = self._uid()
         k = self._k
+        if REC.active:
+            REC.progress(uid, 'N')
         view = snap_value(states)
         snap = REC.snapshot() if REC.active else None
         update = self._script_update(k, timestep, states)
@@ -121,7 +125,7 @@ class ScriptedMixin:
         if REC.active:
             REC.ev('STEPNU' if self.is_step() else 'NU',
                    uid=uid, n=k, ts=timestep, view=view, snap=snap,
-                   update=log_copy(update))
+                   update=log_copy(update), path=REC.locate(self))
         self._k += 1
         return update
 
@@ -415,3 +419,239 @@ class WProc(ScriptedMixin, Process):
         update = ScriptedMixin.next_update(self, timestep, states)
         self._last = (update, log_copy(update))
         return update
+
+
+# ---------------------------------------------------------------------------
+# structural parties (C09, C10, C11, C07 under structural change)
+# ---------------------------------------------------------------------------
+
+def _divider_schema(d):
+    """JSON divider description -> schema value."""
+    if d is None:
+        return None
+    if isinstance(d, dict):
+        out = dict(d)
+        if 'topology' in out:
+            out['topology'] = {k: tuple(v) for k, v in out['topology'].items()}
+        return out
+    return d
+
+
+def cell_var_schema(cellvars):
+    """{'n': {'default':..,'divider':..,'updater':..}} -> ports sub-schema."""
+    sch = {}
+    for v, a in cellvars.items():
+        s = {'_default': decode_value(copy.deepcopy(a['default'])), '_emit': True}
+        if a.get('updater'):
+            s['_updater'] = a['updater']
+        if a.get('divider') is not None:
+            s['_divider'] = _divider_schema(copy.deepcopy(a['divider']))
+        sch[v] = s
+    return sch
+
+
+class CProc(ScriptedMixin, Process):
+    """Process living inside a compartment: accumulates seeded amounts into
+    the compartment's variables (port `vars`)."""
+    name = 'grow'
+
+    def __init__(self, parameters=None):
+        super().__init__(parameters)
+        self._sinit()
+
+    def ports_schema(self):
+        s = self.spec
+        schema = self._base_schema()
+        full = cell_var_schema(s['cellvars'])
+        schema['vars'] = {v: full[v] for v in s.get('declares', list(full))}
+        return schema
+
+    def _script_update(self, k, timestep, states):
+        up = {}
+        for var, amounts in self.spec.get('writes', []):
+            up[var] = self._pick(amounts, k)
+        return {'vars': up} if up else {}
+
+
+class TStep(ScriptedMixin, Step):
+    """Idempotent step inside a compartment: t := n + offset (a pure function
+    of the state, so that an extra phase changes nothing), and c := c + 1 with
+    accumulate, so that running twice in one phase is visible."""
+    name = 'tally'
+
+    def __init__(self, parameters=None):
+        super().__init__(parameters)
+        self._sinit()
+
+    def ports_schema(self):
+        s = self.spec
+        schema = self._base_schema()
+        full = cell_var_schema(s['cellvars'])
+        schema['vars'] = {v: full[v] for v in ('n', s['out']) if v in full}
+        return schema
+
+    def _script_update(self, k, timestep, states):
+        s = self.spec
+        return {'vars': {s['out']: {'_value': states['vars']['n'] + s.get('offset', 1),
+                                    '_updater': 'set'}}}
+
+
+def build_cell(template, cellvars, depth_up, parallel=False):
+    """processes/steps/flow/topology dictionaries of one compartment."""
+    processes, steps, flow, topology = {}, {}, {}, {}
+    probe = ('..',) * depth_up + ('verif_probe',)
+    for sp in template.get('procs', []):
+        spec = dict(sp)
+        spec['cellvars'] = cellvars
+        params = {'spec': spec, 'name': sp['name']}
+        if parallel or sp.get('parallel'):
+            params['_parallel'] = True
+        processes[sp['name']] = CProc(params)
+        topology[sp['name']] = {'vars': ('vars',), 'probe': probe}
+    for sp in template.get('steps', []):
+        spec = dict(sp)
+        spec['cellvars'] = cellvars
+        st = TStep({'spec': spec, 'name': sp['name']})
+        if sp.get('where') == 'processes':
+            processes[sp['name']] = st
+        else:
+            steps[sp['name']] = st
+        topology[sp['name']] = {'vars': ('vars',), 'probe': probe}
+        if sp.get('flow') is not None:
+            flow[sp['name']] = [tuple(d) for d in sp['flow']]
+    return processes, steps, flow, topology
+
+
+class AProc(ScriptedMixin, Process):
+    """Structural actor: maps its choice stream onto the compartments it
+    currently sees in its glob ports `agents` and `pool`.
+
+    spec: name, cellvars, templates {name: template}, ops: list of op
+    descriptors, one per interval (cyclic):
+      ['noop'] ['add', state] ['del', i] ['delpath', i] ['gen', template, state]
+      ['div', i, mode, template, st1, st2] ['move', i, src, dst] ['move_up', i, src, dst, amount]
+      ['add_del', state, i] ['add_existing', i] ['write', i, var, value] ['multi_del', i, j]
+    """
+    name = 'actor'
+
+    def __init__(self, parameters=None):
+        super().__init__(parameters)
+        self._sinit()
+
+    def ports_schema(self):
+        s = self.spec
+        schema = self._base_schema()
+        sub = {'vars': cell_var_schema(s['cellvars'])}
+        schema['agents'] = {'*': copy.deepcopy(sub)}
+        schema['pool'] = {'*': copy.deepcopy(sub)}
+        return schema
+
+    def _fresh(self, k, j=0):
+        return '%s_%d_%d' % (self.spec['name'], k, j)
+
+    def _cell(self, template_name, depth_up=2):
+        s = self.spec
+        return build_cell(s['templates'][template_name], s['cellvars'], depth_up)
+
+    def _script_update(self, k, timestep, states):
+        s = self.spec
+        ops = s.get('ops') or [['noop']]
+        op = ops[k % len(ops)]
+        kind = op[0]
+        seen = {'agents': sorted(states['agents'].keys()), 'pool': sorted(states['pool'].keys())}
+        # keep the population bounded: a crowded store is thinned instead
+        if kind in ('add', 'gen', 'div', 'add_del') and \
+                len(seen['agents']) + len(seen['pool']) >= s.get('maxcells', 7):
+            # (only the first actor deletes: two actors never issue
+            # conflicting operations on one cell in the same batch)
+            op = ['del', k] if s.get('thin', True) else ['noop']
+            kind = op[0]
+
+        def pick(store, i):
+            kids = seen[store]
+            return kids[i % len(kids)] if kids else None
+        up = {}
+        if kind == 'add':
+            up['agents'] = {'_add': [{'key': self._fresh(k),
+                                      'state': {'vars': decode_value(copy.deepcopy(op[1]))}}]}
+        elif kind == 'del':
+            c = pick('agents', op[1])
+            if c is not None:
+                up['agents'] = {'_delete': [c]}
+        elif kind == 'delpath':
+            c = pick('agents', op[1])
+            if c is not None:
+                up['agents'] = {'_delete': [(c,)]}
+        elif kind == 'multi_del':
+            cs = [c for c in (pick('agents', op[1]), pick('agents', op[2])) if c is not None]
+            cs = sorted(set(cs))
+            if cs:
+                up['agents'] = {'_delete': cs}
+        elif kind == 'gen':
+            procs, steps, flow, topo = self._cell(op[1])
+            up['agents'] = {'_generate': [{
+                'key': self._fresh(k), 'processes': procs, 'steps': steps, 'flow': flow,
+                'topology': topo, 'initial_state': {'vars': decode_value(copy.deepcopy(op[2]))}}]}
+        elif kind == 'div':
+            c = pick('agents', op[1])
+            if c is not None:
+                daughters = []
+                for j, st in enumerate((op[4], op[5])):
+                    d = {'key': self._fresh(k, j)}
+                    if op[2] == 'explicit':
+                        procs, steps, flow, topo = self._cell(op[3])
+                        d.update(processes=procs, steps=steps, flow=flow, topology=topo)
+                    if st:
+                        d['initial_state'] = {'vars': decode_value(copy.deepcopy(st))}
+                    daughters.append(d)
+                up['agents'] = {'_divide': {'mother': c, 'daughters': daughters}}
+        elif kind in ('move', 'move_up'):
+            src, dst = op[2], op[3]
+            c = pick(src, op[1])
+            if c is not None:
+                mv = {'source': (c,), 'target': (dst,)}
+                if kind == 'move_up':
+                    mv['update'] = {'vars': {'n': op[4]}}
+                up[src] = {'_move': [mv]}
+        elif kind == 'add_del':
+            c = pick('agents', op[2])
+            u = {'_add': [{'key': self._fresh(k),
+                           'state': {'vars': decode_value(copy.deepcopy(op[1]))}}]}
+            if c is not None:
+                u['_delete'] = [c]
+            up['agents'] = u
+        elif kind == 'add_existing':
+            c = pick('agents', op[1])
+            if c is not None:
+                up['agents'] = {'_add': [{'key': c, 'state': {}}]}
+        elif kind == 'write':
+            c = pick('agents', op[1])
+            if c is not None:
+                up['agents'] = {c: {'vars': {op[2]: decode_value(copy.deepcopy(op[3]))}}}
+        return up
+
+
+class AStep(AProc, Step):
+    """The same actor as a step (structural updates issued inside a step
+    phase)."""
+    name = 'actor'
+
+
+class VProc(ScriptedMixin, Process):
+    """Viewer: a glob port over a store of compartments, declaring a subset
+    of their variables; writes nothing (C07 under structural change)."""
+    name = 'viewer'
+
+    def __init__(self, parameters=None):
+        super().__init__(parameters)
+        self._sinit()
+
+    def ports_schema(self):
+        s = self.spec
+        schema = self._base_schema()
+        full = cell_var_schema(s['cellvars'])
+        schema['look'] = {'*': {'vars': {v: full[v] for v in s['sees']}}}
+        return schema
+
+    def _script_update(self, k, timestep, states):
+        return {}
